@@ -12,6 +12,7 @@ import (
 	"errors"
 	"fmt"
 	"io"
+	"sort"
 	"testing"
 	"testing/iotest"
 
@@ -25,6 +26,9 @@ type C13Case struct {
 	After  []WStep `json:"after"`
 	Chunks []int   `json:"chunks"` // sizes of the successive reads of the "random chunking" reader (cycled)
 	Cuts   []int   `json:"cuts"`   // seeds of sampled truncation / sink-failure offsets (offset = seed mod len)
+	// Early: indexes of Steps after which the forest is ALSO written (and that stream restored and
+	// compared): a long-lived object is flushed again and again, with any kind of call in between
+	Early []int `json:"early,omitempty"`
 }
 
 func genC13(t *rapid.T) C13Case {
@@ -57,6 +61,17 @@ func genC13(t *rapid.T) C13Case {
 	n := rapid.IntRange(1, lim.maxBlocks).Draw(t, "nsteps")
 	for i := 0; i < n; i++ {
 		c.Steps = append(c.Steps, g.next(t, lim, ops))
+	}
+	for i := 0; i < n; i++ {
+		if rapid.IntRange(0, 3).Draw(t, "early") == 0 {
+			c.Early = append(c.Early, i)
+		}
+	}
+	if n >= 2 && rapid.Bool().Draw(t, "early-before-last") {
+		if k := len(c.Early); k == 0 || c.Early[k-1] != n-2 {
+			c.Early = append(c.Early, n-2) // written, ONE more call of any kind, written again
+			sort.Ints(c.Early)
+		}
 	}
 	// continuation: at least three blocks and an undo, as the statement asks
 	na := rapid.IntRange(4, 7).Draw(t, "nafter")
@@ -236,7 +251,7 @@ func runC13(c C13Case) *Result {
 		return res.failf("case error: kind %q cannot be serialized", c.Cfg.Kind)
 	}
 	w := newWorld([]Cfg{c.Cfg})
-	anyDel := false
+	anyDel, wroteEarly := false, false
 	for i, st := range c.Steps {
 		ce, oe := w.step(i, st)
 		if ce != nil {
@@ -249,6 +264,31 @@ func runC13(c C13Case) *Result {
 		if st.Op == "block" && len(st.B.Del) > 0 {
 			anyDel = true
 		}
+		if inSet(c.Early, i) && i < len(c.Steps)-1 {
+			var eb bytes.Buffer
+			en, err := serialize(w.insts[0], &eb)
+			if err != nil {
+				return res.failf("%s: writing after step %d failed: %v", c.Cfg, i, err)
+			}
+			if en != eb.Len() {
+				return res.failf("%s: write after step %d reported %d bytes, %d were produced", c.Cfg, i, en, eb.Len())
+			}
+			in, _, rerr, perr := restore(c.Cfg, bytes.NewReader(eb.Bytes()))
+			if perr != nil {
+				return res.failf("%s: restoring the stream written after step %d panicked: %v", c.Cfg, i, perr)
+			}
+			if rerr != nil {
+				return res.failf("%s: restoring the stream written after step %d failed: %v", c.Cfg, i, rerr)
+			}
+			if err := sameState(w.insts[0], in, w.f.View().MaxPos()+4, w.ever); err != nil {
+				return res.failf("%s: written after step %d (%s) and restored: %v", c.Cfg, i, st.Op, err)
+			}
+			res.count("intermediate-writes", 1)
+			wroteEarly = true
+		}
+	}
+	if wroteEarly {
+		res.class("written-more-than-once")
 	}
 	if err := w.check(); err != nil {
 		res.class("setup-failed") // the state itself is wrong: C01/C06/C09's business
